@@ -8,11 +8,11 @@ checks = {}
 for f in sorted(glob.glob(os.path.join(V, "checks", "C*.json"))):
     checks.update(json.load(open(f)))
 na_reasons = {}
-p = os.path.join(V, "checks", "not_applicable.json")
+p = os.path.join(V, "not_applicable.json")
 if os.path.exists(p):
     na_reasons = json.load(open(p))
 hooks_commits = []
-p = os.path.join(V, "checks", "hooks.json")
+p = os.path.join(V, "hooks.json")
 if os.path.exists(p):
     hooks_commits = json.load(open(p))["source_commits"]
 m = {"version": 1,
